@@ -31,6 +31,8 @@ type Gen struct {
 	vecOpt             map[string]string
 	recent             []string // in-memory segments of the last builds (revisitEarlier)
 	abandonBeforeMerge bool     // genMergeCase: every merge is first abandoned at a few points
+	sweepBeforeMerge   bool     // genMergeCase: ... or at EVERY progress report
+	forceBigVariant    int      // bigMergeCase: 1+variant to use (0 = by count)
 	prevOpened         string   // genC02: the opened segment of the previous case
 	vecBMetric         string
 	// scripts for the frozen corpus query reopened segments only
@@ -1211,6 +1213,14 @@ func (g *Gen) genMergeCase(cfgMod func(*batchCfg), dump func(seg string), depth 
 		if allDropped {
 			g.st("merge.zero-survivors")
 		}
+		if g.sweepBeforeMerge {
+			// abandoned inside every single progress report in turn (so also in the middle of every term of
+			// every thesaurus), each attempt followed by nothing but the next one; then the merge proper
+			g.emit("cfg mergebuf=16")
+			g.emit("mergecancel %s segs=%s drops=%s max=100000", g.fresh("fx"), strList(ins), strings.Join(drops, "|"))
+			g.emit("cfg mergebuf=%d", 1024*1024)
+			g.st("merge.sweptfirst")
+		}
 		if g.abandonBeforeMerge {
 			// the same merge abandoned at a few points first (the close channel closes inside the k-th
 			// progress report): whatever those attempts left in pools or scratch objects, the merge that
@@ -1242,6 +1252,9 @@ func (g *Gen) bigMergeCase() {
 	mode := []int{1026, 1026, 1025, 1024, 3}[g.r.Intn(5)]
 	// the first two big merges of a run are the cardinality-dependent modes with deletions crossing 1024
 	nth := g.stats["bigmerge"]
+	if g.forceBigVariant > 0 {
+		nth = g.forceBigVariant - 1
+	}
 	if nth < 5 {
 		mode = []int{1026, 1026, 1025, 1026, 1026}[nth]
 	}
@@ -1359,6 +1372,9 @@ func (g *Gen) bigMergeCase() {
 	}
 	f := g.fresh("f")
 	g.emit("merge %s segs=%s drops=%s", f, strList(segs), strings.Join(drops, "|"))
+	if g.dumpfiles {
+		g.emit("dumpfile %s", f)
+	}
 	m := g.fresh("m")
 	g.emit("open %s %s", m, f)
 	g.emit("q count %s", m)
@@ -1666,6 +1682,11 @@ func (g *Gen) genC07(n int) error {
 			g.emit("close %s", sg)
 		}
 	}
+	// postings of merged segments that span several chunks: the big input behind small ones that lack
+	// the field / the terms (read with Next and Advance, with and without exclusions)
+	g.forceBigVariant = 5
+	g.bigMergeCase()
+	g.forceBigVariant = 0
 	return nil
 }
 
